@@ -8,7 +8,7 @@ import warnings
 import numpy as np
 
 from .. import fcsgen, bfs
-from ..fingerprint import fp, diff
+from ..fingerprint import fp, diff, broken
 from ..runner import Result, scratch
 
 ID = 'C20'
@@ -228,6 +228,10 @@ def run_case(c):
                 return None            # an operation that raises does not produce a state
             if nxt is None or not isinstance(nxt, FlowCal.io.FCSData) or nxt.ndim != 2:
                 return None
+            bk = broken(fp(nxt))
+            if bk and not broken(fp(state)):
+                res.violation('state-broken:%s' % ev, 'after %s on the %s sample (history %s) the attributes %s can no longer be read' % (
+                    ev, base, ' ; '.join(hist) or 'loading', ', '.join(bk)), dict(kind='bfs', base=base, depth=len(hist) + 1))
             return nxt
 
         # clones are checked in every distinct state: hook the canon function (called once per new candidate)
@@ -273,7 +277,8 @@ def run_case(c):
         buf, _ = fcsgen.build(l)
         with open(p, 'wb') as f:
             f.write(buf)
-        return FlowCal.io.FCSFile(p)
+        # the path is spelled anew for every load (equal text, another string object), as two callers would
+        return FlowCal.io.FCSFile(os.path.join(os.path.dirname(p), ''.join(list(os.path.basename(p)))))
     a, b = write(lay), write(lay)
     if not (a == b) or (a != b) or hash(a) != hash(b):
         res.violation('file-eq:identical', 'two loads of the same file: == %s, != %s, equal hashes %s' % (a == b, a != b, hash(a) == hash(b)), dict(c))
